@@ -1,7 +1,7 @@
 use crate::{
     error::Error,
     traits::{FlatSized, FlatUnsized},
-    utils::mem::check_align_and_min_size,
+    utils::{floor_mul, mem::check_align_and_min_size},
 };
 
 /// In-place initializer of flat type.
@@ -11,6 +11,8 @@ pub unsafe trait Emplacer<T: FlatUnsized + ?Sized>: Sized {
     /// Apply initializer for uninitialized memory.
     fn emplace(self, bytes: &mut [u8]) -> Result<&mut T, Error> {
         check_align_and_min_size::<T>(bytes)?;
+        // Initialize exactly the bytes that the resulting reference will cover (see `ptr_from_bytes`).
+        let bytes = unsafe { bytes.get_unchecked_mut(..floor_mul(bytes.len(), T::ALIGN)) };
         unsafe { self.emplace_unchecked(bytes) }
     }
 }
